@@ -3,6 +3,7 @@ import TD.C06.LemmasPlan
 import TD.C06.LemmasLoad
 import TD.C06.LemmasMulti
 import TD.C06.LemmasReads
+import TD.C06.LemmasX
 
 /-!
 # C06 — LIS log pass frame sets are exact; any sub-selection is a sub-matrix
@@ -627,5 +628,78 @@ theorem reads_inside_selected_records (lp : LogPass) (st : Store) (sl : Option S
 example : ∀ op ∈ [Op.seek 50, .read 50 0 2, .skip 10, .read 50 12 4, .skip 4, .read 50 20 2, .seek 90, .read 90 0 2,
     .read 90 2 4, .skip 4, .read 90 10 2], OpOk storeD (SelectedRecord lpD (some ⟨1, 5, 2⟩)) op :=
   reads_inside_selected_records lpD storeD (some ⟨1, 5, 2⟩) (some [2]) _ setFrameSet_values_witness.2.2.2
+
+/-! ## Implied X — what is proved in general, and the exact gap
+
+Wanted (`implied_x_partial` / `implied_x_wrong_iff`): for every indirect-X log pass, slice and channel list the implied X
+of loaded frame `i` is `x0 + frame·spacing` whenever step = 1, or the pass is one record, or every record's first
+selected frame has offset 0; otherwise exactly the F7 rule.
+
+Proved, for every plan with an indirect word, **every channel list** and every slice of one record
+(`implied_x_events_partial`): the EXTRAPOLATE events of the record are exactly — one of `start` frames at frame `start`
+when `start > 0`, then one of `step` frames at every further selected frame, in order. Together with
+`extrapolate_rule_first` / `extrapolate_rule_later` (the interpreter's rule for one such event) this determines the
+implied X of a record up to the renumbering of frame numbers: `X[first] = Xrecord + start·spacing` when the record is
+the first loaded one (`frInt = 0`), `X[first] = X[previous loaded frame] + start·spacing` otherwise (the F7 rule), and
+`X[next] = X[previous] + step·spacing` inside the record; for `start = 0` no extrapolation happens at the first frame
+(the record's own X word is used).
+
+Gap: the composition with `renumber` (that the extrapolation at in-record frame `g_j` lands on loaded row `frInt + j`)
+and with `execEvs` over all map entries is proved only for direct X (`entries_exec_all`, where there are no
+extrapolations); for indirect X it is covered by `implied_x_witness_step1`, `implied_x_f7_witness`, the correspondence
+run (implied X vector compared on every load) and the oracle, which evaluates exactly the class predicate
+"indirect ∧ record ordinal > 0 ∧ first selected offset > 0" and the rule above on the implementation. -/
+
+theorem implied_x_events_partial (p : Plan) (a b c0 : Nat) (chans : List Nat) (evs : List Ev)
+    (hindr : p.indr > 0) (hab : a < b) (hne : sortDedup chans ≠ [])
+    (h : genEvents p a b c0 chans = .ok evs) :
+    exts evs = (if a > 0 then [(a, some a)] else [])
+      ++ (rangeList (a + (if c0 = 0 then 1 else c0)) b (if c0 = 0 then 1 else c0)).map
+          (fun g => ((if c0 = 0 then 1 else c0), some g)) := by
+  have hstep : 0 < (if c0 = 0 then 1 else c0) := by split <;> omega
+  unfold genEvents at h
+  simp only at h
+  generalize (if c0 = 0 then 1 else c0) = c at hstep h ⊢
+  split at h
+  · cases h
+  · rename_i cs hcs
+    have hcs' : cs = sortDedup chans := by
+      unfold checkChIdx at hcs
+      simp only at hcs
+      split at hcs
+      · split at hcs
+        · cases hcs
+        · cases hcs; rfl
+      · cases hcs; rfl
+    have hlen : cs.length > 0 := by
+      rw [hcs']; cases hs : sortDedup chans with
+      | nil => exact absurd hs hne
+      | cons x xs => simp
+    simp only [hlen, hab, and_self, if_true] at h
+    have hr := retFrameEvents_noExt p cs
+    cases hre : retFrameEvents p cs with
+    | mk pre r2 =>
+      obtain ⟨fevts, post⟩ := r2
+      rw [hre] at hr h
+      simp only at hr h
+      obtain ⟨hpre, hfev, hpost⟩ := hr
+      cases h
+      rw [exts_append, frameLoop_exts p fevts post _ b c hstep hfev hpost (merged_noExt p pre post c) _ _ _ hab (Nat.le_refl _)]
+      simp only [hindr, if_true]
+      congr 1
+      cases pre with
+      | some pr =>
+        have hpr := hpre pr rfl
+        simp only [hindr, if_true]
+        by_cases ha : a > 0
+        · simp [ha, exts, hpr]
+        · simp [ha, exts, hpr]
+      | none =>
+        simp only
+        by_cases ha : a > 0
+        · simp [ha, hindr, exts]
+        · simp [ha, exts]
+
+example : exts ((genEvents ⟨4, [4, 2]⟩ 1 6 2 [1]).toOption.getD []) = [(1, some 1), (2, some 3), (2, some 5)] := by decide
 
 end TD.C06
